@@ -67,7 +67,10 @@ def c01_extra(run, tier):
                                 "msg": "TT(random rank-<=3 array of shape %s, %s, decay=%s, eps=%g): %s" % (shape, dt, decay, eps, msg),
                                 "replay": {"engine": "vf.numrun", "what": "c01", "note": "seeded random array; rerun the check with the same VERIF_SEED"}}
                     try:
-                        X = tt.TT(A if n % 2 else A.numpy(), eps=eps)
+                        X, ev = truncrun.record_trunc("to_tt", d, eps, lambda: tt.TT(A if n % 2 else A.numpy(), eps=eps))
+                        if isinstance(X, tt.TT) and dt != torch.float32 and d > 1:
+                            e2 = torch.linalg.norm(project.dense(X.cores) - A).item() ** 2
+                            run._extra_traces = getattr(run, "_extra_traces", []) + [truncrun.make_trace("to_tt", d, eps, torch.linalg.norm(A).item() ** 2, e2, ev, "random %s" % shape)]
                     except Exception as ex:  # noqa
                         run.problems.append(P("exception", "raised %s: %s" % (type(ex).__name__, str(ex)[:200])))
                         continue
@@ -118,7 +121,10 @@ def c02_extra(run, tier):
                                 "msg": "round(%s %s %s, %s, eps=%g): %s" % (variant, kind, shape, dt, eps, msg),
                                 "replay": {"engine": "vf.numrun", "what": "c02", "note": "seeded random TT; rerun the check with the same VERIF_SEED"}}
                     try:
-                        y = x.round(eps)
+                        y, ev = truncrun.record_trunc("round_tt", d, eps, lambda: x.round(eps))
+                        if isinstance(y, tt.TT) and d > 1:
+                            e2 = torch.linalg.norm(project.dense(y.cores) - dense).item() ** 2
+                            run._extra_traces = getattr(run, "_extra_traces", []) + [truncrun.make_trace("round_tt", d, eps, torch.linalg.norm(dense).item() ** 2, e2, ev, "random %s %s" % (variant, shape))]
                     except Exception as ex:  # noqa
                         run.problems.append(P("exception", "raised %s: %s" % (type(ex).__name__, str(ex)[:200])))
                         continue
